@@ -18,6 +18,22 @@ COMMON_NOTE = ('Trusted base: the simulated event loop admits exactly the '
 
 # id -> (check module, text, note, technique, design_ref)
 CHECKS = {
+    'C01': ('c01_tamper',
+            'Seeded fault injection by an on-path wire over every registered '
+            'cipher x MAC x compression: one edit after NEWKEYS at a drawn '
+            '(direction, packet, region, kind) out of bit flip, byte drop/'
+            'insert, truncate, packet drop/duplicate/swap, splices; oracle on '
+            'the receiver: application data equals exactly what packets wholly '
+            'before the first altered byte carried, the connection ends with '
+            'an integrity/protocol error or stalls and ends with an error '
+            'once the link closes, nothing after the close. Cells '
+            '(cipher, mac family, compression, kind, region, direction) '
+            'reached are reported as abstract states.',
+            COMMON_NOTE + ' Packet and padding boundaries come from the '
+            'independent passive decoder (umac: no padding region). Same '
+            'algorithms in both directions (Pair).',
+            'deterministic simulation: on-path tamper fault injection grid, '
+            'prefix-exact delivery oracle', 'DESIGN.md 4 C01'),
     'C07': ('c07_channel_data',
             'Seeded exploration of multi-channel write/read/pause programs on '
             'a real asyncssh client/server pair under a scheduler that owns '
